@@ -209,8 +209,10 @@ func serverPanicVerdict(obs string) (string, string, bool) {
 
 // isLibPanic: the clauses of a panic on the handler side and of a panic that took the
 // evaluating process down (isolate.go); both are grouped by what was asked of the library.
-func isLibPanic(clause string) bool {
-	return clause == serverPanicClause || clause == "backend-panic" || clause == escapedClause
+func isLibPanic(clause string) bool { return isHandlerPanic(clause) || clause == escapedClause }
+
+func isHandlerPanic(clause string) bool {
+	return clause == serverPanicClause || clause == "backend-panic"
 }
 
 // panicGroup: a panic of the handler side is grouped by what the handler was asked to
